@@ -40,7 +40,7 @@ def main():
             'engine': 'mir-rules',
             'level_claimed': {
                 'category': 'other',
-                'text': doc.get('level_text', 'Static decision of the structural clauses listed in DESIGN.md section 5 for %s on every path of every analysed build configuration (quick: default build; thorough: default, no-debug-assertions, all-features, no_std). The behavioural statement as a whole is not decided; the undecided clauses are listed in the evidence.' % pid),
+                'text': doc.get('level_text', 'Static decision of the structural clauses listed in DESIGN.md section 5 for %s on every path of every analysed build configuration (quick: default and all-features builds; thorough: default, no-debug-assertions, all-features, no_std). The behavioural statement as a whole is not decided; the undecided clauses are listed in the evidence.' % pid),
                 'design_ref': 'DESIGN.md section 5, %s' % pid,
             },
             'level_note': doc.get('level_note', 'Trusted base: rustc nightly MIR construction and callee resolution; the anchor / who-may-call tables in engine/rules (each confirmed by reading the code); canary fixtures run on every check. Not executed: redb itself.'),
